@@ -5,7 +5,7 @@ ID = "C20"
 GEN = "c20"
 HARNESS_TEST = "TestC20"
 COQ_MODEL = ["C20/Check.v", "Gen/C20Facts.v"]
-COQ_PROOF_DEPS = ["C20/Proofs.v"]
+COQ_PROOF_DEPS = ["C20/Proofs.v", "C20/ProofsDg.v"]
 COQ_OBLIG = ["C20/Property.v", "Gen/C20Oblig.v"]
 CASES_HEADER = ("Require Import Nib.C20.SMapDef Nib.C20.Model Nib.C20.Spec Nib.C20.Check Nib.Gen.C20Facts.\n"
                 "Open Scope nat_scope.")
@@ -15,19 +15,28 @@ VIOLATES_FN = "violates"
 RULE = ("case = a generated state-building history (3-9 segments of related ops + single ops, ~5-30 ops) on a real app (EVM contracts with constructor storage, "
         "SSTOREs incl. clearing, self-destructs, code-less contracts, ERC20 + FunToken both ways, conversions, "
         "token-factory denoms/admin hand-over/custom metadata/mints, sudoers edits and root change, inflation toggles and "
-        "param edits, day-long blocks (epochs tick, inflation hook), fee shares, oracle feeder delegations, prevotes, "
+        "param edits, day-long blocks (epochs tick, inflation hook), x/devgas registry HISTORIES on real wasm contracts "
+        "(reflect.wasm instantiated with no admin / creator / other user / gov module / another contract as admin; "
+        "MsgRegisterFeeShare, MsgUpdateFeeShare away from and BACK to the deployer, to the contract, to the stored value, "
+        "MsgCancelFeeShare + re-registration, MsgUpdateParams valid / invalid / disabled, admin changes; senders authorised / "
+        "strangers; strings canonical / upper-case / empty / malformed; delivered as signed txs or through the message "
+        "router; ~60 % of the cases, the handler model must predict every success/failure and the dumped registry), "
+        "oracle feeder delegations, prevotes, "
         "votes, tallies (rates, miss counters), reward allocations) -> ExportAppStateAndValidators -> fresh app InitChain "
         "-> second export; values are drawn with a per-case hub so that many-to-one relations occur in every collection whose "
         "values can coincide (several validators -> one feeder, denoms -> one admin/creator, contracts -> one deployer/"
-        "withdrawer/bytecode, equal rates / storage words / rewards); 6 fixed openers first; non-trivial = the exported state populates at least 3 of the feature "
+        "withdrawer/bytecode, equal rates / storage words / rewards); an import that panics or is rejected by genesis validation "
+        "is a violation with the history as replay; 9 fixed openers first; non-trivial = the exported state populates at least 3 of the feature "
         "groups {contract storage, funtokens, tf denoms, oracle pending votes/prevotes/rewards, oracle rates/miss, "
         "fee shares, inflation/epochs advanced, sudoers edited}; distinct = distinct input")
 ASSUMPTIONS = [
     "x/auth and x/bank (cosmos-sdk) restore accounts and denom metadata from their own genesis sections; observed "
     "(accounts before = after is part of the checked predicate), not modelled",
-    "keccak, FunToken ids, tf denom parsing, default bank metadata and devgas param sanitising are oracle values computed "
-    "by the Go code and handed to the model as lookup tables",
-    "oracle reward allocations and dev-gas fee shares are created through the keeper API (no message / needs a wasm contract)",
+    "keccak, FunToken ids, tf denom parsing, default bank metadata, devgas param validation/sanitising, bech32 parsing and "
+    "re-encoding of account addresses are oracle values computed by the Go code and handed to the model as lookup tables "
+    "(hypothesis funs_dg_ok of the devgas history theorems is checked on the tables of every case)",
+    "oracle reward allocations are created through the keeper API (no message exists); wasm contracts are instantiated / "
+    "re-administered through the wasm permission keepers (environment of the devgas handlers)",
 ]
 TRUSTED = ["harness/c20/c20_dump_test.go: projection of raw stores / typed collections / export JSON to model-shaped records "
            "(keys -> ranks in store byte order, opaque payloads -> ids)"]
@@ -148,13 +157,36 @@ def funs_coq(o):
             hashes[c] = h
         for k, er, dn, _ in g["evm"]["funtokens"]:
             ftids[(er, dn)] = k
-        san[g["devgas"]["params"]] = g["devgas"]["params_sanitized"]
+    tb = o["tables"]
+    dgp = tb.get("dgparams", [])
+    san = {p: sn for p, _, _, sn in dgp}
+    mem = lambda xs: "(fun k => existsb (Nat.eqb k) %s)" % nl(xs)
+    dg = o.get("dg", {})
     tp = o["tables"]["tfparse"]
     return ("{| f_hash := tbl1 %s 4999; f_code_empty := fun c => Nat.eqb c %d; f_ftid := tbl2 %s 4999; "
-            "f_tfparse := tblp %s; f_tfdefmd := tbl1 %s 0; f_dgsan := tbl1 %s 0; f_pairjson := tblid %s |}") % (
+            "f_tfparse := tblp %s; f_tfdefmd := tbl1 %s 0; f_dgsan := tbl1 %s 0; f_pairjson := tblid %s; "
+            "f_addr_ok := %s; f_canon := tblid %s; f_dgp_ok := %s; f_dgp_enabled := %s; f_gov := %d; f_empty := %d |}") % (
         pl(sorted(hashes.items())), o["tables"].get("empty_code", 0),
         L("(%d, %d, %d)" % (a, b, k) for (a, b), k in sorted(ftids.items())),
-        L("(%d, (%d, %d))" % (d, c, s) for d, c, s, _ in tp), pl([(d, m) for d, _, _, m in tp]), pl(sorted(san.items())), pl(o["tables"].get("pairjson", [])))
+        L("(%d, (%d, %d))" % (d, c, s) for d, c, s, _ in tp), pl([(d, m) for d, _, _, m in tp]), pl(sorted(san.items())), pl(o["tables"].get("pairjson", [])),
+        mem(tb.get("addr_ok", [])), pl(tb.get("canon", [])), mem([p for p, ok, _, _ in dgp if ok]), mem([p for p, _, en, _ in dgp if en]),
+        dg.get("gov", 0), dg.get("empty", 0))
+
+
+def dg_hist_coq(dg):
+    out = []
+    for e in dg.get("hist", []):
+        k = e[0]
+        if k == "wasm":
+            _, c, has, adm, cr = e
+            out.append("(DWasm %d {| wi_admin := %s; wi_creator := %d |}, true)" % (c, ("Some %d" % adm) if has else "None", cr))
+        elif k == "params":
+            out.append("(DParams %s %d, %s)" % ("true" if e[1] else "false", e[2], "true" if e[4] else "false"))
+        elif k == "cancel":
+            out.append("(DCancel %d %d, %s)" % (e[1], e[2], "true" if e[4] else "false"))
+        else:
+            out.append("(%s %d %d %d, %s)" % ({"reg": "DRegister", "upd": "DUpdate"}[k], e[1], e[2], e[3], "true" if e[4] else "false"))
+    return L(out)
 
 
 def to_coq_case(rec):
@@ -165,10 +197,10 @@ def to_coq_case(rec):
     kv = lambda l: L("(%d, %d, %d, %d)" % tuple(e) for e in l)
     return ("{| k_import_ok := %s; k_h := %s; k_t := %s; k_F := %s; k_env1 := %s; k_env2 := %s; "
             "k_s1 := %s; k_e1 := %s; k_s2 := %s; k_e2 := %s; k_jeq := %s; k_kv1 := %s; k_kv2 := %s; "
-            "k_q1 := %s; k_q2 := %s; k_probe := %s |}") % (
+            "k_q1 := %s; k_q2 := %s; k_probe := %s; k_dg_p0 := %d; k_dg_hist := %s |}") % (
         "true" if o["import_ok"] else "false", Z(o["h"]), Z(o["t"]), funs_coq(o), env_coq(o["env1"]), env_coq(o["env2"]),
         st_coq(o["s1"], o["md1"]), gen_coq(o["e1"]), st_coq(o["s2"], o["md2"]), gen_coq(o["e2"]), jeq, kv(o["kv1"]), kv(o["kv2"]),
-        nl(o["q1"]), nl(o["q2"]), pr)
+        nl(o["q1"]), nl(o["q2"]), pr, o.get("dg", {}).get("params0", 0), dg_hist_coq(o.get("dg", {})))
 
 
 def features(rec):
@@ -221,6 +253,8 @@ def classify(rec):
             ks.append("exported:" + name)
     for c in rec.get("strings", []):
         ks.append("mixed-case-string:" + c)
+    for c in rec.get("devgas", []):
+        ks.append("devgas-history:" + c)
     st = rec["obs"]["s1"]
     # many-to-one relations (several keys of a collection share one value)
     def shared(vals):
@@ -237,6 +271,9 @@ def classify(rec):
             ks.append("shared:" + name)
     if len(st["oracle"]["pairs"]) != len(st["oracle"]["whitelist"]) or set(st["oracle"]["pairs"]) != set(st["oracle"]["whitelist"]):
         ks.append("state:whitelist-edit-pending")
+    toggles = [op["a"] % 2 for op in rec["input"]["ops"] if op["k"] == "infl_toggle"]
+    if g["infl"]["skipped"] > 0:
+        ks.append("state:skipped-epochs-inflation-" + ("on" if toggles and toggles[-1] == 1 else "off"))
     ks.append("import:" + ("ok" if rec["obs"]["import_ok"] else "panic"))
     ks.append("rejected_ops=%d" % min(rec.get("failed_ops", 0), 9))
     return ks
@@ -324,6 +361,11 @@ def model_search(chk):
                  {"k": "or_prevote", "a": 7, "b": 1, "c": 0}, {"k": "or_vote", "a": 3, "b": 0, "c": 0},
                  {"k": "fs_set", "a": 1, "b": 2, "c": 3}, {"k": "tf_create", "a": 1, "b": 1, "c": 0}, {"k": "tf_admin", "a": 0, "b": 3, "c": 0},
                  {"k": "deploy", "a": 0, "b": 0, "c": 0, "slots": [[1, 2]]}, {"k": "ftcoin", "a": 0, "b": 0, "c": 0}], "dt": 77},
+        # the history of C20_devgas_update_removes_withdrawer_refuted (Coq witness dg_back_to_deployer)
+        {"ops": [{"k": "wasm_new", "a": 1, "b": 0, "c": 0}, {"k": "fs_reg", "a": 0, "b": 0, "c": 2},
+                 {"k": "fs_upd", "a": 0, "b": 0, "c": 5}], "dt": 10},
+        {"ops": [{"k": "wasm_new", "a": 2, "b": 1, "c": 0}, {"k": "fs_reg", "a": 0, "b": 0, "c": 3, "d": 1},
+                 {"k": "fs_upd", "a": 0, "b": 0, "c": 11, "d": 1}], "dt": 10},
     ]
 
 
@@ -337,13 +379,21 @@ MANIFEST = {
                  "start heights are the import height, and the imported state equals the original on every persistent "
                  "collection outside an explicit exception list that is part of the statement (oracle CreatedBlock/timestamps "
                  "and price snapshots re-based, RewardsID re-derived but proved fresh, orphan bytecode, storage of code-less "
-                 "accounts, unset sequences defaulting to 1); per-module theorems C20_<module>_roundtrip; refutations for the "
-                 "two pre-fix genesis formulas (stale RewardsID, token-factory bank metadata reset). Tie to /repo on every run: "
+                 "accounts, unset sequences defaulting to 1); per-module theorems C20_<module>_roundtrip; for x/devgas the "
+                 "REACHABLE-state statement: a model of the four registry message handlers (Register/Update/Cancel fee share, "
+                 "UpdateParams over a table of wasm contracts) and C20_devgas_history_roundtrip / _from_genesis / "
+                 "C20_app_roundtrip_after_devgas_history: after any history of these messages the export passes genesis "
+                 "validation (FeeShare.Validate / Params.Validate are part of init_devgas) and InitGenesis restores the registry "
+                 "exactly; refutations for the two pre-fix genesis formulas (stale RewardsID, token-factory bank metadata "
+                 "reset) and for the variant rule 'MsgUpdateFeeShare removes a withdrawer equal to the deployer' "
+                 "(C20_devgas_update_removes_withdrawer_refuted). Tie to /repo on every run: "
                  "(a) generated facts — every collections.New* call of the seven keepers, the GenesisState fields, which of them "
-                 "InitGenesis reads / ExportGenesis fills, and the two formulas the model is parameterised by — with the "
+                 "InitGenesis reads / ExportGenesis fills, and the formulas the model is parameterised by (RewardsID, tf bank metadata, "
+                 "asset.Pair JSON codec, the shape of every write to FeeShare.WithdrawerAddress in x/devgas) — with the "
                  "obligation that every persistent collection is carried by a used genesis field, derived, or on the exception "
                  "list; (b) correspondence — generated state-building histories on the real app (contracts, self-destructs, "
-                 "FunTokens both ways, tf denoms/hand-over/metadata, sudoers, inflation, epochs, fee shares, pending oracle "
+                 "FunTokens both ways, tf denoms/hand-over/metadata, sudoers, inflation, epochs, x/devgas registry message histories "
+                 "on real wasm contracts (replayed by the handler model), pending oracle "
                  "votes/prevotes/rewards) -> ExportAppStateAndValidators -> fresh InitChain -> second export, where the model's "
                  "export/init must reproduce the dumped states and exports exactly, every dumped state must satisfy the "
                  "theorems' well-formedness hypothesis, and the proved-sound predicate Pb (exports, states, raw KV digests, "
@@ -351,12 +401,13 @@ MANIFEST = {
                  "round trip."),
         "design_ref": "DESIGN.md §5 C20",
     },
-    "level_note": ("Theorems quantify over well-formed states; that reachable states are well-formed is checked on every "
-                   "dumped implementation state, not proved. One boundary of that hypothesis is reachable and replayed on the "
+    "level_note": ("Theorems quantify over well-formed states; that reachable states are well-formed is PROVED for x/devgas "
+                   "(invariant of the message handlers) and checked on every dumped implementation state for the other six "
+                   "modules, not proved. One boundary of that hypothesis is reachable and replayed on the "
                    "code: on a chain whose own genesis had an empty oracle whitelist, between a sudo whitelist edit and the "
                    "period end, the second export gains the pairs (C20_oracle_pairs_boundary). x/auth and x/bank genesis "
-                   "round trips are observed, not modelled; hashes/ids/parsing are Go-computed lookup tables; reward "
-                   "allocations and fee shares are driven through the keeper API. Trusted: Coq kernel + vm_compute, the go/ast "
+                   "round trips are observed, not modelled; hashes/ids/parsing/bech32 validity are Go-computed lookup tables; reward "
+                   "allocations are driven through the keeper API, wasm instantiation/admin changes through the wasm permission keepers. Trusted: Coq kernel + vm_compute, the go/ast "
                    "extractor harness/gen/c20, the dump/canonicalisation code harness/c20/c20_dump_test.go."),
     "technique": ("Coq proof (sorted-map extensionality, fold invariants) over executable genesis models + generated "
                   "keeper/genesis facts + differential export/import round trips on the real app"),
